@@ -43,6 +43,8 @@ EXPLANATION = (
     "sequence the slots were computed for), never by its position (shares the slot typing of C18-R1).  "
     "R10 (added) every key of a per-delay entry table owns its inner dict (no dict.fromkeys(keys, {}) / [{}] * n sharing; shared lint "
     "shared_mutable_fill over all ComputeGraph methods and the Jacobian hooks).  "
+    "R11 (added) the delay emitted in `hist(t - <delay>)` is a value-preserving text (str/repr/plain format) of the delay the group "
+    "was keyed by: no stripping/slicing/replacing/digit-limited formatting between the delay symbol and the emitted literal.  "
     "NOT decided: the values of derivatives, DFDP numerics, the vector field itself (C01), the slot arithmetic itself (C18)."
 )
 RULE_TEXT = ("instances = entry-table stores found by def-use from sympy.diff calls, emitter call sites / templates found by name "
@@ -3302,6 +3304,243 @@ def r9_jacobian_parameter_slots(ctx, rid):
     ctx.require(n >= 2, f"{rid}: expected a dfdp(i,k) line and a __PYR_ARG_k__ substitution in the Jacobian block, found {n} slot-bearing templates")
 
 
+_LOSSY_STR_METHODS = ("rstrip", "lstrip", "strip", "removesuffix", "removeprefix", "split", "rsplit", "partition", "rpartition",
+                      "zfill", "ljust", "rjust", "center", "title", "capitalize", "translate", "expandtabs")
+
+
+def float_spec_preserves(spec: str) -> Optional[bool]:
+    """Does a format spec print every binary64 value so that it reads back as the same number?  None = spec not understood."""
+    m = re.fullmatch(r"(?:.?[<>=^])?[-+ ]?[#]?0?(\d+)?[,_]?(?:\.(\d+))?([a-zA-Z%])?", spec)
+    if m is None:
+        return None
+    prec, ty = (int(m.group(2)) if m.group(2) else None), m.group(3)
+    if ty in (None, "g", "G", "n"):
+        return True if prec is None and ty is None else (prec is not None and prec >= 17)
+    if ty in ("e", "E"):
+        return prec is not None and prec >= 16
+    if ty in ("f", "F", "%"):
+        return False            # fixed notation drops small magnitudes whatever the precision
+    if ty in ("d", "s", "r"):
+        return True if ty != "s" or prec is None else False
+    return None
+
+
+def text_value_preservation(ctx, S: Scope, e: ast.AST, depth=0) -> Tuple[Optional[bool], str]:
+    """`e` is the text of a number that ends up in generated code.  (True, how): printed value-preservingly (str / repr / a plain
+    f-string hole / a format spec with >= 17 significant digits, an exponent letter swap e->d); (False, why): a positive reason
+    why the printed text can denote another number (character stripping / slicing / replace on the digits, a format spec with
+    fewer digits, rounding); (None, what): not understood."""
+    if depth > 10:
+        return None, "too deep"
+    e = merged_value(S, e) if isinstance(e, ast.Name) else e
+    if isinstance(e, ast.Name):
+        bs = S.binds(e)
+        if bs and all(b.kind == "value" and not b.path and b.expr is not None for b in bs):
+            res = [text_value_preservation(ctx, S, b.expr, depth + 1) for b in bs]
+            for r in res:
+                if r[0] is not True:
+                    return r
+            return res[0]
+        return True, f"`{e.id}` as is"           # a value (parameter / loop element), printed by whoever formats it
+    if isinstance(e, ast.Constant):
+        return True, "literal"
+    if isinstance(e, ast.IfExp):
+        a, b = text_value_preservation(ctx, S, e.body, depth + 1), text_value_preservation(ctx, S, e.orelse, depth + 1)
+        for r in (a, b):
+            if r[0] is not True:
+                return r
+        return a
+    if isinstance(e, ast.JoinedStr):
+        for v in e.values:
+            if isinstance(v, ast.FormattedValue):
+                if v.format_spec is not None:
+                    spec, hs = template_of(v.format_spec)
+                    if hs or spec is None:
+                        return None, f"computed format spec in `{ast.unparse(e)}`"
+                    ok = float_spec_preserves(spec)
+                    if ok is None:
+                        return None, f"format spec `{spec}`"
+                    if not ok:
+                        return False, f"`{ast.unparse(e)}` formats the number with spec `:{spec}`, which keeps fewer than 17 " \
+                                      f"significant digits (binary64 needs 17 to read back unchanged)"
+                r = text_value_preservation(ctx, S, v.value, depth + 1)
+                if r[0] is not True:
+                    return r
+        return True, "plain f-string hole(s)"
+    if isinstance(e, ast.Call):
+        fn = e.func
+        if isinstance(fn, ast.Name) and fn.id in ("str", "repr") and len(e.args) == 1:
+            r0 = text_value_preservation(ctx, S, e.args[0], depth + 1)
+            return (True, f"{fn.id}(..)") if r0[0] is True else r0
+        if isinstance(fn, ast.Name) and fn.id in ("float", "int", "complex", "abs") and len(e.args) == 1:
+            return text_value_preservation(ctx, S, e.args[0], depth + 1) if fn.id != "int" else \
+                (False, f"`{ast.unparse(e)}` truncates the value to an integer")
+        if isinstance(fn, ast.Name) and fn.id == "round":
+            return False, f"`{ast.unparse(e)}` rounds the value before it is printed"
+        if isinstance(fn, ast.Name) and fn.id == "format" and e.args:
+            if len(e.args) == 1:
+                return text_value_preservation(ctx, S, e.args[0], depth + 1)
+            sp_ = S.single_value(e.args[1])
+            if isinstance(sp_, ast.Constant) and isinstance(sp_.value, str):
+                ok = float_spec_preserves(sp_.value)
+                if ok is None:
+                    return None, f"format spec `{sp_.value}`"
+                return (True, f"format spec `{sp_.value}`") if ok else \
+                    (False, f"`{ast.unparse(e)}` keeps fewer than 17 significant digits")
+            return None, f"`{ast.unparse(e)}`"
+        if isinstance(fn, ast.Attribute) and fn.attr in ("real", "imag"):
+            return text_value_preservation(ctx, S, e.args[0], depth + 1) if e.args else (None, ast.unparse(e))
+        if isinstance(fn, ast.Attribute) and ast.unparse(fn) in ("np.real", "np.imag", "numpy.real", "numpy.imag", "np.float64", "np.asarray") \
+                and e.args:
+            return text_value_preservation(ctx, S, e.args[0], depth + 1)
+        if isinstance(fn, ast.Attribute) and fn.attr in _LOSSY_STR_METHODS:
+            return False, f"`{ast.unparse(e)}` edits the characters of the printed number with `.{fn.attr}(..)`, which can change " \
+                          f"the value it denotes (e.g. '10' -> '1')"
+        if isinstance(fn, ast.Attribute) and fn.attr == "replace" and len(e.args) >= 2:
+            a0, a1 = S.single_value(e.args[0]), S.single_value(e.args[1])
+            if isinstance(a0, ast.Constant) and isinstance(a1, ast.Constant) and isinstance(a0.value, str) and isinstance(a1.value, str) \
+                    and (a0.value.lower(), a1.value.lower()) in (("e", "d"), ("d", "e"), ("e", "e")):
+                return text_value_preservation(ctx, S, fn.value, depth + 1)      # exponent letter of another notation
+            return False, f"`{ast.unparse(e)}` replaces characters of the printed number (`{ast.unparse(e.args[0])}` -> " \
+                          f"`{ast.unparse(e.args[1])}`), which can change the value it denotes"
+        if isinstance(fn, ast.Attribute) and fn.attr == "format" and isinstance(fn.value, ast.Constant):
+            t, hs = format_template(e)
+            if t is None:
+                return None, ast.unparse(e)
+            for m in _FMT_FIELD.finditer(fn.value.value):
+                fld = m.group(0)
+                if ":" in fld:
+                    ok = float_spec_preserves(fld[fld.index(":") + 1:-1])
+                    if ok is None:
+                        return None, f"format field `{fld}`"
+                    if not ok:
+                        return False, f"`{ast.unparse(e)}` keeps fewer than 17 significant digits (`{fld}`)"
+            for h in hs:
+                r = text_value_preservation(ctx, S, h, depth + 1)
+                if r[0] is not True:
+                    return r
+            return True, "str.format without a lossy spec"
+        if isinstance(fn, ast.Attribute) and fn.attr in ("lower", "upper", "encode", "__str__", "__repr__", "item", "tolist") and not e.args:
+            return text_value_preservation(ctx, S, fn.value, depth + 1)
+        # a private one-expression / multi-return helper of the same class or module: judge what it returns
+        try:
+            targets, how = ctx.cg.resolve_call(getattr(S.f, "origin", None) or S.f, e)
+        except Exception:
+            targets, how = [], "?"
+        if len(targets) == 1 and how not in ("by-name", "external"):
+            g = targets[0]
+            Sg = Scope(ctx, g)
+            rets = [r for r in walk_shallow(g.node) if isinstance(r, ast.Return) and r.value is not None]
+            if rets:
+                for r in rets:
+                    rr = text_value_preservation(ctx, Sg, r.value, depth + 1)
+                    if rr[0] is not True:
+                        return rr
+                return True, f"{g.qualname} prints value-preservingly"
+        return None, f"`{ast.unparse(e)[:60]}`"
+    if isinstance(e, ast.BinOp) and isinstance(e.op, ast.Mod) and isinstance(e.left, ast.Constant) and isinstance(e.left.value, str):
+        for m in _PCT_FIELD.finditer(e.left.value):
+            f_ = m.group(0)
+            if f_ == "%%" or f_[-1] in "sr":
+                continue
+            pm = re.search(r"\.(\d+)", f_)
+            prec = int(pm.group(1)) if pm else None
+            if f_[-1] in "eE" and prec is not None and prec >= 16 or f_[-1] in "gG" and prec is not None and prec >= 17 or f_[-1] in "di":
+                continue
+            return False, f"`{ast.unparse(e)}` keeps fewer than 17 significant digits (`{f_}`)"
+        return True, "%-format without a lossy field"
+    if isinstance(e, ast.BinOp) and isinstance(e.op, ast.Add):
+        for side in (e.left, e.right):
+            r = text_value_preservation(ctx, S, side, depth + 1)
+            if r[0] is not True:
+                return r
+        return True, "concatenation"
+    if isinstance(e, ast.Subscript) and isinstance(e.slice, ast.Slice):
+        inner = S.single_value(e.value)
+        if isinstance(inner, (ast.JoinedStr, ast.Call)) or (isinstance(inner, ast.Name) and False):
+            return False, f"`{ast.unparse(e)}` slices the printed number"
+        return None, ast.unparse(e)
+    if isinstance(e, (ast.Attribute, ast.Subscript)):
+        return True, f"`{ast.unparse(e)}` as is"
+    return None, f"`{ast.unparse(e)[:60]}`"
+
+
+def r11_delay_literal_is_the_delay(ctx, rid):
+    """The generated Jacobian function reads the delayed state with `_yhist_<id> = hist(t - <delay>)`.  The text emitted as
+    <delay> must denote the same number as the delay of the `past(x, tau)` terms that were grouped under it (and as the delay of
+    get_run_func's own history read): it is traced back through the loop over the delay groups to the expression the group keys
+    are made of, and that expression must be str()/repr()/a plain format of the delay - no character stripping, slicing,
+    replacing or digit-limiting format on the way (sanitising for identifier use belongs on a separate copy)."""
+    f = cg_func(ctx, "get_jacobian_func")
+    S = Scope(ctx, f)
+    sites = []
+    for n, t, h in templates_spliced(S, f.node):
+        m = re.search(r"hist\(\s*t\s*-\s*⟨(\d+)⟩\s*\)", t or "")
+        if m:
+            sites.append((n, t, h[int(m.group(1))]))
+    ctx.require(len(sites) >= 1, f"{rid}: no `hist(t - <delay>)` line found in get_jacobian_func")
+    for n, t, hole in sites:
+        st = n
+        while not isinstance(st, ast.stmt):
+            st = parent(st)
+        label = "delay literal of the history read"
+        shown = t.replace("⟨", "{").replace("⟩", "}")
+        # 1. the emitted expression itself
+        r = text_value_preservation(ctx, S, hole)
+        if r[0] is False:
+            ctx.violation(rid, f, st, f"`{shown}`: {r[1]}: the Jacobian reads the history at another delay than the vector field",
+                          label=label)
+            continue
+        if r[0] is None:
+            raise AnalysisError(f"{rid}: `{shown}`: cannot judge how the delay text {r[1]} is produced")
+        # 2. where the loop element comes from: the keys of the delay-group table
+        key_exprs = []
+        base_name = None
+        e = hole
+        while isinstance(e, ast.Call) and isinstance(e.func, ast.Name) and e.func.id in ("str", "repr") and len(e.args) == 1:
+            e = e.args[0]
+        ib = iter_bind(S, e) if isinstance(e, ast.Name) else None
+        if ib is not None:
+            role, base, rest = element_origin(ib[0].expr, ib[1])
+            if role in ("key", "elem") and not rest and isinstance(base, ast.Name):
+                base_name = alias_root(S, base)
+        if base_name is None:
+            raise AnalysisError(f"{rid}: `{shown}`: cannot trace the delay `{ast.unparse(hole)}` back to the keys of the delay groups "
+                                f"(unrecognised form)")
+        for x in walk_shallow(f.node):
+            if isinstance(x, ast.Assign):
+                for tg in x.targets:
+                    if isinstance(tg, ast.Subscript) and isinstance(tg.value, ast.Name) and tg.value.id == base_name:
+                        key_exprs.append((tg.slice, x))
+                    elif isinstance(tg, ast.Name) and tg.id == base_name and isinstance(x.value, ast.DictComp):
+                        key_exprs.append((x.value.key, x))
+                    elif isinstance(tg, ast.Name) and tg.id == base_name and isinstance(x.value, ast.Call) \
+                            and isinstance(x.value.func, ast.Attribute) and x.value.func.attr == "fromkeys" and x.value.args:
+                        key_exprs.append((x.value.args[0], x))
+            elif isinstance(x, ast.Call) and isinstance(x.func, ast.Attribute) and x.func.attr == "setdefault" \
+                    and isinstance(x.func.value, ast.Name) and x.func.value.id == base_name and x.args:
+                key_exprs.append((x.args[0], x))
+        if not key_exprs:
+            raise AnalysisError(f"{rid}: no key of the delay-group table `{base_name}` found (unrecognised form)")
+        bad = None
+        hows = []
+        for k, where in key_exprs:
+            rk = text_value_preservation(ctx, S, k)
+            if rk[0] is None:
+                raise AnalysisError(f"{rid}: cannot judge how the delay-group key {rk[1]} is produced")
+            if rk[0] is False:
+                bad = (rk[1], where)
+                break
+            hows.append(rk[1])
+        if bad:
+            ctx.violation(rid, f, st, f"`{shown}` emits the key of `{base_name}` as the delay, but {bad[0]}: the generated Jacobian reads the "
+                                      f"history at another delay than the vector field (and different delays can collapse into one group)",
+                          {"key_statement": norm(bad[1])}, label=label)
+        else:
+            ctx.ok(rid, f, st, f"the delay emitted in `{shown}` is the key of `{base_name}`, a value-preserving text of the delay symbol",
+                   {"keys": hows}, label=label)
+
+
 def r10_tables_are_distinct_objects(ctx, rid):
     """Entries of different Jacobian matrices must live in different containers.  The per-delay tables (`T[d][(row, col)] = v`)
     are values of one outer dict; every key of that dict needs its OWN inner dict, otherwise an entry stored for one delay shows
@@ -3432,4 +3671,5 @@ RULES = [
     ("C12-R8", r8_placeholder_families_disjoint, 1),
     ("C12-R9", r9_jacobian_parameter_slots, 4),          # hand-over, zip pairing, dfdp(i,k), __PYR_ARG_k__
     ("C12-R10", r10_tables_are_distinct_objects, 1),     # the per-delay table J_hist
+    ("C12-R11", r11_delay_literal_is_the_delay, 1),      # the one hist(t - <delay>) line
 ]
